@@ -43,7 +43,7 @@ def cases(draw, tier):
             "op": draw(st.sampled_from(["dense"] * 5 + ["eye", "eye_T", "eye_prod", "eye_kron", "smul", "diag", "sum_eye", "prod_eye", "perm"])),
             "tol_zero": draw(st.integers(1, 6)) == 1,
             # Hermitian operators may carry a (true) SelfAdjoint / PSD declaration
-            "annot": draw(st.sampled_from([None, None, "SelfAdjoint", "PSD"]))}
+            "annot": draw(st.sampled_from([None, None, "SelfAdjoint", "PSD"])), "pbar": draw(st.integers(1, 8)) == 1}
     if case["annot"] and draw(st.booleans()):
         case["kind"], case["n"] = "normal", draw(st.integers(12, nmax))
         case["g"] = min(case["g"], case["n"])
@@ -103,6 +103,33 @@ def verify(out, sub, site, M, v, Qd, Hd, m, tol, g):
     return True
 
 
+def loose_grade(M, v, tol):
+    """Number of Arnoldi steps that are well defined for cola's own stopping rules: the remainder r_j of step j (norm after
+    two orthogonalisation passes) must stay above (a) 100 tol r_1 - cola stops relative to its first sub-diagonal entry -,
+    (b) 1e4 eps |A q_j| - below that the remainder is rounding noise of the working precision - and (c) 100 tol absolutely
+    (cola's normalisation clip tol / 2). Demands on later columns are waived."""
+    n = M.shape[0]
+    eps = float(np.finfo(M.dtype).eps) if M.dtype.kind in "fc" else 2.2e-16
+    dt = np.result_type(M.dtype, v.dtype, np.float64)
+    V = np.zeros((n, 0), dtype=dt)
+    w = v.astype(dt) / max(np.linalg.norm(v), 1e-300)
+    r1 = None
+    for j in range(n + 1):
+        V = np.concatenate([V, w[:, None]], axis=1)
+        if j == n:
+            break
+        aq = M.astype(dt) @ w
+        naq = np.linalg.norm(aq)
+        for _ in range(2):
+            aq = aq - V @ (V.conj().T @ aq)
+        r = np.linalg.norm(aq)
+        r1 = r if r1 is None else r1
+        if r <= max(100 * tol * r1, 1e4 * eps * naq, 100 * tol, 1e-300) or V.shape[1] == n:
+            break
+        w = aq / r
+    return V.shape[1]
+
+
 def make_operator(kind, M, seed):
     """(cola operator, its matrix): Dense(M), or a structured operator of M's size and dtype (M is then replaced)."""
     import cola
@@ -152,6 +179,10 @@ def check(case, out):
         M = M.astype(np.complex64 if np.iscomplexobj(M) else np.float32)
         B = B.astype(np.complex64 if np.iscomplexobj(B) else np.float32)
         out.label("single_precision")
+        if case["seed"] % 3 == 0 and not case.get("tol_zero") and case["tol_exp"] <= -12:
+            # a small-scale operator (entries ~1e-8) with a tolerance far below that scale: nothing but the scale changes
+            M = (M * M.dtype.type(1e-8)).astype(M.dtype)
+            out.label("small_scale")
     n, m = case["n"], case["m"]
     tol = 0.0 if case.get("tol_zero") else 10.0 ** case["tol_exp"]
     vs = [B] if B.ndim == 1 else [B[:, j] for j in range(B.shape[1])]
@@ -166,8 +197,7 @@ def check(case, out):
     g_tight = KR.krylov_basis(lambda q: M @ q, v, n + 1, tol=1e-11).shape[1]
     # a breakdown is recognisable only down to the working precision: in single precision the residual of an exhausted
     # Krylov space is ~1e-4 relative, so the grade is judged at 1e4 eps (1.2e-3 in float32, 2e-12 in float64)
-    gtol = max(1e-5, 100 * tol, 1e4 * float(np.finfo(M.dtype).eps))
-    g = KR.krylov_basis(lambda q: M @ q, v, n + 1, tol=gtol).shape[1]
+    g = loose_grade(M, v, tol)
     out.label("sub:" + sub, "kind:" + case["kind"], "start:" + case["rhs"], "m:" + ("<n" if m < n else "=n" if m == n else ">n"),
               "breakdown" if g < n else "full_grade")
     site = f"arnoldi:{case['rhs']}:{'m>n' if m > n else 'm<=n'}"
@@ -181,7 +211,15 @@ def check(case, out):
             return None
 
     if sub in ("relation", "padded"):
-        res = call(lambda: arnoldi(A, v.copy(), max_iters=m, tol=tol))
+        if case.get("pbar"):  # the progress-bar option runs the same iteration through another loop wrapper
+            out.label("pbar")
+
+            def with_bar():
+                with oracle.quiet():
+                    return arnoldi(A, v.copy(), max_iters=m, tol=tol, pbar=True)
+            res = call(with_bar)
+        else:
+            res = call(lambda: arnoldi(A, v.copy(), max_iters=m, tol=tol))
         if res is None:
             return
         Q, H, info = res
@@ -247,7 +285,7 @@ def check(case, out):
         except Exception as e:
             out.fail(sub, site, "batched_to_dense:" + oracle.exc_man(e), e)
             return
-        grades = [KR.krylov_basis(lambda q: M @ q, vv, n + 1, tol=gtol).shape[1] for vv in vs]
+        grades = [loose_grade(M, vv, tol) for vv in vs]
         if not (np.all(np.isfinite(Qd)) and np.all(np.isfinite(Hd))):
             out.fail(sub, site, "nonfinite", "batched")
             return
@@ -264,6 +302,8 @@ def check(case, out):
             qd, hd = dense(Qj), dense(Hj)
             h = min(8, min(m, n))
             bt = max(1e-8, 1e4 * float(np.finfo(qd.dtype).eps))
+            # a strongly shifted operator c I + N determines its Arnoldi vectors only to ~eps c / |N| per step
+            bt *= max(1.0, 10.0 ** (case.get("shift_exp", 0) - 4))
             if Qd[j].shape != qd.shape or np.abs(Qd[j][:, :h] - qd[:, :h]).max() > bt or np.abs(Hd[j][:h, :h] - hd[:h, :h]).max() > bt * scale:
                 out.fail(sub, site, "batched_differs", f"member {j}")
                 return
